@@ -4,6 +4,7 @@ import QuickAdd.Lemmas.DigitGroups
 import QuickAdd.Lemmas.SearchYear
 import QuickAdd.Lemmas.FuelIndep
 import QuickAdd.Lemmas.TerminationArts
+import QuickAdd.Lemmas.DfsBound
 /-!
 # C01 (continued) — one statement for all value-level productions
 
@@ -202,6 +203,27 @@ theorem parse_terminates {S : Type} (sc : Scorer S) (ts : Ts) (hts : TsOk ts) (o
   split
   · simp only [hl]; exact hs
   · exact hs
+
+/-- worth of the start nodes of the DFS over the match graph of a text: more fuel than this and the DFS finishes (`Lemmas/DfsBound`:
+    a path with head `i` is worth `2^(n-i)`, its successors together less) -/
+def dfsNeeded (txt : List Nat) : Nat :=
+  dfsPot (matchRegex txt).toArray.size (((List.range (matchRegex txt).toArray.size).filter fun i => !hasPred txt (matchRegex txt).toArray i).map fun i => [i])
+
+/-- **the parse is well defined**: with enough fuel for the DFS (`dfsNeeded`, a function of the text) and for the main loop
+    (`fuelNeeded`), `ctparse_gen` ends without any exception or fuel marker, and every larger fuel gives the identical result —
+    candidates, order, scores, subject, labels.  Hypotheses: a reference time of the years 2 … 9500 and no listed exotic digit
+    in the normalised text. -/
+theorem parse_well_defined {S : Type} (sc : Scorer S) (ts : Ts) (hts : TsOk ts) (o : Opts) (raw : List Nat) (fuel : Nat)
+    (hne : NoExotic (stripLabels (preprocess raw)))
+    (hdfs : dfsNeeded (stripLabels (preprocess raw)) < fuel)
+    (hfuel : fuelNeeded (initialStack sc o.depth o.relMatchLenNum o.relMatchLenDen (stripLabels (preprocess raw)) fuel).1 < fuel) :
+    (ctparseGen sc ts o raw fuel).err = none ∧ ∀ k, ctparseGen sc ts o raw (fuel + k) = ctparseGen sc ts o raw fuel :=
+  ⟨parse_terminates sc ts hts o raw fuel hne hfuel,
+   fun k => ctparseGen_fuel_indep sc ts o raw fuel (dfsFinished_of_fuel _ fuel hdfs)
+     (search_terminates sc ts hts o _ fuel (QuickAdd.tokInt_of_text _ hne) hfuel) k⟩
+
+/-- the DFS bound on a concrete text: 'tomorrow 5pm' (six pattern matches) -/
+example : dfsNeeded [116, 111, 109, 111, 114, 114, 111, 119, 32, 53, 112, 109] = 96 := by decide +kernel
 
 /-- hypothesis (a) is met by ordinary tokens: '5pm' has a numeric group that converts and a marker group that is never converted -/
 example : TokInt { id := 128, caps := [("ampm", [112, 109]), ("hour", [53])] } := by
